@@ -68,6 +68,22 @@ theorem entry_fields (d : StepDef) (e : ExcV) (sw : Bool) (ce : Val) :
   ⟨_, rfl, rfl, by simp [dictGet?], by simp [dictGet?], by simp [dictGet?], by simp [dictGet?],
     by simp [dictGet?], by simp [dictGet?], by simp [dictGet?], by simp [dictGet?]⟩
 
+/-- **`line`/`col` are the step's own position, wherever in the file it stands**: a step mapping the
+    yaml parser recorded at (0-based) `(l, c)` is reported at line `l + 1`, column `c + 1` - in
+    particular a step on the very first line of the file (`l = 0`: a flow-style / JSON pipeline) is
+    reported at line `1`, not as "no position"; only a step without a recorded position (a bare string
+    step, a step built in code) has `None`. -/
+theorem entry_position (d : StepDef) :
+    (∀ l c, d.lc = some (l, c) →
+      optNatVal d.line = .int ((l : Int) + 1) ∧ optNatVal d.col = .int ((c : Int) + 1)) ∧
+    (d.lc = none → optNatVal d.line = .none ∧ optNatVal d.col = .none) := by
+  refine ⟨fun l c h => ?_, fun h => ?_⟩
+  · simp [StepDef.line, StepDef.col, h, optNatVal]
+  · simp [StepDef.line, StepDef.col, h, optNatVal]
+
+example : optNatVal ({ name := some "vprobe", lc := some (0, 9) } : StepDef).line = .int 1 ∧
+    optNatVal ({ name := some "vprobe", lc := some (0, 9) } : StepDef).col = .int 10 := by decide
+
 /-- `save_error` succeeds whenever `onError` can be formatted and `runErrors` is absent or a list. -/
 theorem saveError_succeeds_when (d : StepDef) (s : St) (e : ExcV) (sw : Bool) (ce : Val)
     (hc : customError d s = .ok ce)
@@ -327,21 +343,21 @@ theorem run_appends_only (prog : Program) (hp : progOk prog = true) (fuel : Nat)
     `swallow` and a formatted `onError`; (3) a call step with `swallow` whose called group fails;
     (4) a witness that the pipeline went on. -/
 def demoProg : Program := ⟨[{ name := "main", groups := [
-  ("steps", some [
+  ("steps", .steps [
     { name := some "vprobe",
       inArgs := some [("p", .dict [(.str "tag", .str "r"), (.str "fails", .list [.str "ValueError", .str "ValueError"])])],
-      retry := some { max := some (.int 3) }, line := some 2, col := some 5 },
+      retry := some { max := some (.int 3) }, lc := some (1, 4) },
     { name := some "vprobe",
       inArgs := some [("who", .str "me"),
                       ("p", .dict [(.str "tag", .str "s"), (.str "failRest", .str "KeyError"), (.str "msg", .str "first")])],
-      swallow := .bool true, onError := some (.dict [(.str "by", .str "{who}")]), line := some 9, col := some 5 },
+      swallow := .bool true, onError := some (.dict [(.str "by", .str "{who}")]), lc := some (8, 4) },
     { name := some "pypyr.steps.call", inArgs := some [("call", .str "sg")], swallow := .bool true,
-      line := some 15, col := some 5 },
+      lc := some (14, 4) },
     { name := some "vprobe", inArgs := some [("p", .dict [(.str "tag", .str "end")])] }]),
-  ("sg", some [
+  ("sg", .steps [
     { name := some "vprobe",
       inArgs := some [("p", .dict [(.str "tag", .str "c"), (.str "failRest", .str "TypeError"), (.str "msg", .str "second")])],
-      line := some 21, col := some 7 }])] }]⟩
+      lc := some (20, 6) }])] }]⟩
 
 /-- the program satisfies the hypothesis of the global theorem. -/
 example : progOk demoProg = true := by decide +kernel
